@@ -267,6 +267,66 @@ theorem find_entries_zipIdx (F : Comp → Bool) :
       · have : ¬ (n + 1 ≤ k) := by omega
         simp [hle, this]
 
+/-- Generic form of `find_entries_zipIdx` (any entry function that stamps the axis it is given). -/
+theorem find_entries_zipIdx_gen (F : Comp → Bool) (g : Comp → Nat → Option SliceEntry)
+    (hg : ∀ c j e, g c j = some e → e.axis = j) :
+    ∀ (l : List Comp) (n k : Nat),
+      (((l.zipIdx n).filter (fun p => F p.1)).filterMap (fun p => g p.1 p.2)).find?
+          (fun e => e.axis == k)
+        = (if n ≤ k then
+            (match l[k - n]? with
+             | some c => if F c then g c k else none
+             | none => none)
+           else none) := by
+  intro l
+  induction l with
+  | nil => intro n k; simp
+  | cons c l ih =>
+    intro n k
+    simp only [List.zipIdx_cons]
+    by_cases hkn : k = n
+    · subst hkn
+      simp only [Nat.le_refl, if_true, Nat.sub_self, List.getElem?_cons_zero]
+      have hrest := ih (k + 1) k
+      simp only [show ¬ (k + 1 ≤ k) by omega, if_false] at hrest
+      by_cases hF : F c = true
+      · simp only [List.filter_cons, hF, if_true, List.filterMap_cons]
+        cases he : g c k with
+        | none => simpa [he] using hrest
+        | some e =>
+          have := hg c k e he
+          simp [he, this]
+      · have hF' : F c = false := by simpa using hF
+        simp only [List.filter_cons, hF', Bool.false_eq_true, if_false]
+        simpa using hrest
+    · have hrest := ih (n + 1) k
+      have hhead : ∀ e, g c n = some e → (e.axis == k) = false := by
+        intro e he
+        have := hg c n e he
+        simp [this]; omega
+      have hskip : (((if F c = true then [(c, n)] else []) ++
+            ((l.zipIdx (n + 1)).filter (fun p => F p.1))).filterMap (fun p => g p.1 p.2)).find?
+              (fun e => e.axis == k)
+          = (((l.zipIdx (n + 1)).filter (fun p => F p.1)).filterMap (fun p => g p.1 p.2)).find?
+              (fun e => e.axis == k) := by
+        by_cases hF : F c = true
+        · simp only [hF, if_true, List.singleton_append, List.filterMap_cons]
+          cases he : g c n with
+          | none => simp
+          | some e => simp [List.find?_cons, hhead e he]
+        · simp [hF]
+      have hfilter : ((c, n) :: l.zipIdx (n + 1)).filter (fun p => F p.1)
+          = (if F c = true then [(c, n)] else []) ++ ((l.zipIdx (n + 1)).filter (fun p => F p.1)) := by
+        by_cases hF : F c = true <;> simp [List.filter_cons, hF]
+      rw [hfilter, hskip, hrest]
+      by_cases hle : n ≤ k
+      · have hlt : n + 1 ≤ k := by omega
+        simp only [hle, hlt, if_true]
+        have : k - n = (k - (n + 1)) + 1 := by omega
+        rw [this, List.getElem?_cons_succ]
+      · have : ¬ (n + 1 ≤ k) := by omega
+        simp [hle, this]
+
 theorem contains_zipIdx (F : Comp → Bool) :
     ∀ (l : List Comp) (n k : Nat),
       (((l.zipIdx n).filter (fun p => F p.1)).map (fun p => p.2)).contains k
@@ -524,5 +584,97 @@ theorem filter_zipIdx_singleton (F : Comp → Bool) :
         | succ j' =>
           simp only [List.getElem?_cons_succ] at hc'
           exact hothers j' c' (by omega) hc'
+
+/-! ### Generic fusion (used for eager mode) -/
+
+def applyEntry (o : Option SliceEntry) (srcs : List Nat) : List Nat :=
+  match o with
+  | some e => onnxSliceList srcs e.start e.stop e.step
+  | none => srcs
+
+theorem lookupSlice_eq (E : List SliceEntry) (k : Nat) (srcs : List Nat) :
+    lookupSlice E k srcs = applyEntry (E.find? (fun e => e.axis == k)) srcs := by
+  unfold lookupSlice applyEntry
+  cases E.find? (fun e => e.axis == k) <;> rfl
+
+/-- The result of one axis after `Slice` (entry `o`) and `Squeeze` (iff `sq`). -/
+def axisAfter (o : Option SliceEntry) (sq : Bool) (srcs : List Nat) : Except Err AxisMap :=
+  if sq then (do let s ← single? (applyEntry o srcs); pure (AxisMap.drop s))
+  else .ok (.pick (applyEntry o srcs))
+
+theorem slice_squeeze_axiswise_gen (E : List SliceEntry) (S : List Nat)
+    (ent : Comp → Nat → Nat → Option SliceEntry) (sq : Comp → Bool)
+    (axisF : Comp → List Nat → Except Err AxisMap) (P : Comp → Prop)
+    (hax : ∀ (c : Comp) (j d : Nat), P c →
+        axisF c (List.range d) = axisAfter (ent c j d) (sq c) (List.range d)) :
+    ∀ (comps : List Comp) (ds : List Nat) (k : Nat) (r : View),
+      comps.length ≤ ds.length →
+      (∀ c ∈ comps, P c) →
+      (∀ (j : Nat) (c : Comp) (d : Nat), comps[j]? = some c → ds[j]? = some d →
+          E.find? (fun e => e.axis == k + j) = ent c (k + j) d) →
+      (∀ j, comps.length ≤ j → E.find? (fun e => e.axis == k + j) = none) →
+      (∀ (j : Nat) (c : Comp), comps[j]? = some c → S.contains (k + j) = sq c) →
+      (∀ j, comps.length ≤ j → S.contains (k + j) = false) →
+      opSqueeze.go S k (opSlice.go E k (View.init ds)) = .ok r →
+      axiswise axisF comps ds = .ok r := by
+  intro comps
+  induction comps with
+  | nil =>
+    intro ds k r _ _ _ hE' _ hS' h
+    rw [slice_go_init_none E k ds (fun j => hE' j (by simp)),
+        squeeze_go_init_none S k ds (fun j => hS' j (by simp))] at h
+    simpa [axiswise] using h
+  | cons c cs ih =>
+    intro ds k r hlen hP hE hE' hS hS' h
+    cases ds with
+    | nil => simp at hlen
+    | cons d ds =>
+      have hE0 := hE 0 c d (by simp) (by simp)
+      have hS0 := hS 0 c (by simp)
+      simp only [Nat.add_zero] at hE0 hS0
+      have hlen' : cs.length ≤ ds.length := by simpa using hlen
+      have hP' : ∀ c ∈ cs, P c := fun c hc => hP c (by simp [hc])
+      have hEt : ∀ (j : Nat) (c : Comp) (d' : Nat), cs[j]? = some c → ds[j]? = some d' →
+          E.find? (fun e => e.axis == k + 1 + j) = ent c (k + 1 + j) d' := by
+        intro j c' d' hj hd
+        have := hE (j + 1) c' d' (by simpa using hj) (by simpa using hd)
+        rwa [show k + (j + 1) = k + 1 + j by omega] at this
+      have hEt' : ∀ j, cs.length ≤ j → E.find? (fun e => e.axis == k + 1 + j) = none := by
+        intro j hj
+        have := hE' (j + 1) (by simp; omega)
+        rwa [show k + (j + 1) = k + 1 + j by omega] at this
+      have hSt : ∀ (j : Nat) (c : Comp), cs[j]? = some c → S.contains (k + 1 + j) = sq c := by
+        intro j c' hj
+        have := hS (j + 1) c' (by simpa using hj)
+        rwa [show k + (j + 1) = k + 1 + j by omega] at this
+      have hSt' : ∀ j, cs.length ≤ j → S.contains (k + 1 + j) = false := by
+        intro j hj
+        have := hS' (j + 1) (by simp; omega)
+        rwa [show k + (j + 1) = k + 1 + j by omega] at this
+      simp only [View.init, List.map_cons, slice_go_cons_pick, squeeze_go_cons_pick, hS0,
+        lookupSlice_eq, hE0] at h
+      simp only [axiswise, hax c k d (hP c (by simp)), axisAfter]
+      cases hsq : sq c with
+      | false =>
+        simp only [hsq, Bool.false_eq_true, if_false] at h ⊢
+        cases hr : opSqueeze.go S (k + 1) (opSlice.go E (k + 1) (List.map (fun d => AxisMap.pick (List.range d)) ds)) with
+        | error e => simp [hr, bind, Except.bind] at h
+        | ok r' =>
+          have := ih ds (k + 1) r' hlen' hP' hEt hEt' hSt hSt' (by simpa [View.init] using hr)
+          simp only [hr, bind, Except.bind, pure, Except.pure] at h
+          simp only [this, bind, Except.bind, pure, Except.pure]
+          exact h
+      | true =>
+        simp only [hsq, if_true] at h ⊢
+        cases hs : single? (applyEntry (ent c k d) (List.range d)) with
+        | error e => simp [hs, bind, Except.bind] at h
+        | ok s =>
+          cases hr : opSqueeze.go S (k + 1) (opSlice.go E (k + 1) (List.map (fun d => AxisMap.pick (List.range d)) ds)) with
+          | error e => simp [hs, hr, bind, Except.bind] at h
+          | ok r' =>
+            have := ih ds (k + 1) r' hlen' hP' hEt hEt' hSt hSt' (by simpa [View.init] using hr)
+            simp only [hs, hr, bind, Except.bind, pure, Except.pure] at h
+            simp only [hs, this, bind, Except.bind, pure, Except.pure]
+            exact h
 
 end OV.Index
